@@ -15,15 +15,15 @@ RULE = (
     'surrounding whitespace incl. \\n and exotic spaces, country/format prefixes added/stripped/lower-cased/'
     'followed by newline, every ASCII separator and whitespace character inserted at every position, every key '
     'of stdnum.util._char_map inserted at every position and substituted for its ASCII equivalent, whole-number '
-    'look-alike respelling, separators/whitespace REPLACING a character (optionally with one re-randomised digit), second-order decorations of accepted presentations, table-driven inputs (every member of the tables of the module - court names and aliases, codes, letters - put in the place of the table member found in a valid number), self-similar inputs (a substring of the number copied in any case over / into another part of it), common.mutations, every digit/A/X inserted or substituted and every character deleted at every position of the first numbers) x every '
+    'look-alike respelling, separators/whitespace REPLACING a character (optionally with one re-randomised digit), second-order decorations of accepted presentations, table-driven inputs (every member of the tables of the module - court names and aliases, codes, letters - put in the place of the table member found in a valid number), own-prefix inputs (numbers whose body itself begins with a prefix that the module strips or carries, with and without that prefix), self-similar inputs (a substring of the number copied in any case over / into another part of it), common.mutations, every digit/A/X inserted or substituted and every character deleted at every position of the first numbers) x every '
     'keyword option set of validate.  For each accepted x (v = validate(x, **o) returned a str): '
     'validate(v, **o) must return exactly v, and v == v.strip().  ' + G.NONTRIVIAL_RULE)
 
 PARAMS = {
     'quick': dict(full=0, dense=5, light=60, mutations=3, double=8, sepsubst=3, sepsubst_rand=2, near=3,
-                  table=2, table_limit=500, selfsim=2, selfsim_limit=150),
+                  table=2, table_limit=500, selfsim=2, selfsim_limit=150, ownprefix=3000),
     'thorough': dict(full=14, dense=50, light=400, mutations=12, double=80, sepsubst=20, sepsubst_rand=6, near=30,
-                     table=12, table_limit=6000, selfsim=20, selfsim_limit=1500),
+                     table=12, table_limit=6000, selfsim=20, selfsim_limit=1500, ownprefix=20000),
 }
 EXPECT = 'validate(v, **o) == v and v == v.strip() for v = validate(x, **o)'
 
@@ -161,6 +161,11 @@ def _worker(task):
                 if o is not None and o[0] == 'ok':
                     for z in G.case_presentations(y):
                         check('self-similar', z, {})
+    # numbers whose body begins with the text of a prefix that the module strips / carries (FRFR..., see _modgen)
+    if part == 0:
+        for lab, y in G.own_prefix_numbers(mod, valid_all, rng, P['ownprefix']):
+            for kw in opts:
+                check('own-prefix' if not kw else 'option:' + ','.join(sorted(kw)), y, kw)
     # second order: decorate accepted presentations again
     if accepted_pool:
         for _ in range(P['double'] // nparts + 1):
